@@ -58,7 +58,7 @@ def _drop_batch_consults(worker):
     worker.setup_consults = [c for c in worker.setup_consults if not c[0].startswith(BATCH_MARK)]
 
 
-def run_robust(worker, consults, cmds, chunk=100):
+def run_robust(worker, consults, cmds, chunk=100, force_single=False):
     """Runs stateful multi-commands (each builds/uses its own renamed-apart predicates, which the
     texts in `consults` define or declare) on a fresh machine.  If anything abnormal happens
     (a panic rebuilds the machine, a hang restarts the worker and the pool re-runs the whole
@@ -72,11 +72,12 @@ def run_robust(worker, consults, cmds, chunk=100):
         for t in consults:
             consult_checked(worker, BATCH_MARK + t, persist=True)
     try:
-        prep()
-        r0 = worker.restarts
-        res = run_multi(worker, cmds, chunk=chunk, attribute=False)
-        if worker.restarts == r0 and not any(rs[0].abn for rs in res if rs):
-            return res
+        if not force_single:
+            prep()
+            r0 = worker.restarts
+            res = run_multi(worker, cmds, chunk=chunk, attribute=False)
+            if worker.restarts == r0 and not any(rs[0].abn for rs in res if rs):
+                return res
         prep()
         return run_multi(worker, cmds, chunk=1, attribute=False)
     finally:
